@@ -367,9 +367,9 @@ class Port(Base):
                 items.remove(port)
             return items
         if operator == "gt":
-            return [ports[0] - 1]
+            return [ports[0] - 1] if ports else [65535]
         if operator == "lt":
-            return [ports[-1] + 1]
+            return [ports[-1] + 1] if ports else [1]
         raise ValueError(f"invalid port {operator=}")
 
 
